@@ -20,17 +20,25 @@ def showRat (q : Rat) : String := toString q.num ++ "/" ++ toString q.den
 def showRatList (qs : List Rat) : String :=
   if qs.isEmpty then "-" else ",".intercalate (qs.map showRat)
 
-/-- builds the transform named by `kind` from its coordinate list; `none` = Go would divide by zero -/
+/-- comparison policy: a quadrilateral is skipped ("nonfinite") when SquareToQuadrilateral would divide
+    by zero, or when it has zero area / a singular coefficient matrix — there float64 rounding decides
+    which branch Go takes (e.g. `dx3` rounds to 1e-17 instead of 0 and the non-affine branch divides 0/0),
+    and the property only speaks about non-degenerate quadrilaterals. -/
+def degenerateQuad (x0 y0 x1 y1 x2 y2 x3 y3 : Rat) : Bool :=
+  sqDegenerate x0 y0 x1 y1 x2 y2 x3 y3 || sqDenominator x1 y1 x2 y2 x3 y3 == 0 ||
+    (squareToQuadrilateral x0 y0 x1 y1 x2 y2 x3 y3).det == 0
+
+/-- builds the transform named by `kind` from its coordinate list; `some none` = skipped (degenerate) -/
 def mkTransform? (kind : String) (cs : List Rat) : Option (Option (PT Rat)) :=
   match kind, cs with
   | "s2q", [x0, y0, x1, y1, x2, y2, x3, y3] =>
-    some (if sqDegenerate x0 y0 x1 y1 x2 y2 x3 y3 then none
+    some (if degenerateQuad x0 y0 x1 y1 x2 y2 x3 y3 then none
           else some (squareToQuadrilateral x0 y0 x1 y1 x2 y2 x3 y3))
   | "q2s", [x0, y0, x1, y1, x2, y2, x3, y3] =>
-    some (if sqDegenerate x0 y0 x1 y1 x2 y2 x3 y3 then none
+    some (if degenerateQuad x0 y0 x1 y1 x2 y2 x3 y3 then none
           else some (quadrilateralToSquare x0 y0 x1 y1 x2 y2 x3 y3))
   | "q2q", [x0, y0, x1, y1, x2, y2, x3, y3, x0p, y0p, x1p, y1p, x2p, y2p, x3p, y3p] =>
-    some (if sqDegenerate x0 y0 x1 y1 x2 y2 x3 y3 || sqDegenerate x0p y0p x1p y1p x2p y2p x3p y3p then none
+    some (if degenerateQuad x0 y0 x1 y1 x2 y2 x3 y3 || degenerateQuad x0p y0p x1p y1p x2p y2p x3p y3p then none
           else some (quadrilateralToQuadrilateral x0 y0 x1 y1 x2 y2 x3 y3 x0p y0p x1p y1p x2p y2p x3p y3p))
   | _, _ => none
 
